@@ -8,6 +8,7 @@ mod place;
 mod recov;
 mod repl;
 mod resp;
+mod shard;
 mod stream;
 mod util;
 mod wal;
@@ -55,6 +56,7 @@ fn main() {
         "place" => place::main(rest),
         "resp" => resp::main(rest),
         "ks" => ks::main(rest),
+        "shard" => shard::main(rest),
         m => {
             eprintln!("unknown module {m}");
             2
